@@ -7,7 +7,7 @@ from . import core
 TOK = [{"A": "Server", "B": "Client", "o": "optional", "h": "HighAvailability"},
        {"A": "a", "B": "B9", "o": "0x", "h": "Z"},
        {"A": "Workstation", "B": "Server", "o": "Tools", "h": "SAP"}]
-ARCH = [{"x": "x86_64", "y": "ppc64le"}, {"x": "aarch64", "y": "s390x"}, {"x": "i386", "y": "x86_64"}]
+ARCH = [{"x": "x86_64", "y": "ppc64le"}, {"x": "aarch64", "y": "s390x"}, {"x": "i386", "y": "x86_64"}, {"x": "x86_64", "y": "src"}]
 SCAL = [{"relname": "Fedora", "relshort": "F", "relver": "22", "bpname": "Red Hat Enterprise Linux", "bpshort": "RHEL", "bpver": "7",
          "lpname": "Satellite", "lpshort": "SAT", "lpver": "6.0", "date": "20150522"},
         {"relname": "My Prodüct  (beta)", "relshort": "my-prod", "relver": "rawhide", "bpname": "b", "bpshort": "b-1", "bpver": "10.0.3",
@@ -152,6 +152,10 @@ def build(obj, conc):
         v.type = nd["type"]
         v.arches = set(conc.arch[a] for a in nd["arches"])
         if v.type == "layered-product":
+            if conc.rot % 2:
+                # the product's release described on its own and handed to the variant (such an object starts as not layered)
+                from productmd.composeinfo import Release
+                v.release = Release(ci)
             v.release.name, v.release.short, v.release.version, v.release.type = s["lpname"], s["lpshort"], s["lpver"], "ga"
         for c, a, cls in nd["paths"]:
             getattr(v.paths, conc.cat[c])[conc.arch[a]] = ("%s/%s/%s" % (v.uid, conc.arch[a], conc.cat[c])) if cls == "set" else ""
